@@ -27,7 +27,8 @@
  *       filter and filter_vars in the JSON body.
  *
  *       Further verbs: d = DELETE /v1/objects/.. (DeleteObjectHandler; refused with 500 per object because the objects were
- *       not created through the API), a:<action> = POST /v1/actions/<action>?type=<Type>[&host=..] (ActionsHandler).
+ *       not created through the API), a:<action> = POST /v1/actions/<action>?type=<Type>[&host=..] (ActionsHandler;
+ *       sn=<service> adds &service=<service> whatever the type).
  *   G <templates|variables|types|status|console>             | <http status> <number of results>
  *       handlers whose targets are not config objects (permission strings templates/query/Host, variables, types,
  *       status/query, console)
@@ -701,6 +702,8 @@ static bool DoH(const std::vector<std::string>& w)
 		if (tok.compare(0, 2, "n=") == 0) {
 			if (action) addQ(svc ? "service" : "host", Dec(tok.substr(2)));
 			else target += "/" + UrlEnc(Dec(tok.substr(2)));
+		} else if (tok.compare(0, 3, "sn=") == 0 && action) {
+			addQ("service", Dec(tok.substr(3)));   /* a service named in a request whose `type` is Host */
 		} else if (tok.compare(0, 2, "p=") == 0) {
 			std::string rest = tok.substr(2);
 			if (rest.empty()) body->Set(svc ? "services" : "hosts", new Array());
@@ -1032,6 +1035,29 @@ static void GenCase(Rng& r)
 		}
 		Run("Q " + Enc(perm) + " " + types + " c" + q);
 		Run("Q " + Enc(perm) + " " + types + " l" + q);
+	}
+	/* the shape of F-C18a: a request over Host and Service that names services and then enumerates hosts */
+	if (actions) {
+		std::vector<std::string> svcs;
+		bool anyHost = false;
+		for (auto& it : l_Inv) { if (it.host) anyHost = true; else svcs.push_back(it.name); }
+		if (!svcs.empty() && anyHost && r.below(3) != 0) {
+			std::string f = r.coin() ? "T" : GenFilter(r, 1, false, false);
+			std::string one = svcs[r.below(svcs.size())];
+			Run("Q " + Enc(req) + " Host,Service c n:Service=" + one + " t=Host f=" + f);
+			Run("Q " + Enc(req) + " Host,Service l n:Service=" + one + " t=Host f=" + f);
+			if (l_HttpOk && (req == "actions/reschedule-check" || req == "actions/remove-acknowledgement"))
+				Run("H a:" + req.substr(8) + " Host sn=" + one + " f=" + f);
+			if (svcs.size() >= 2) {
+				std::sort(svcs.begin(), svcs.end());
+				if (svcs.size() > 3) svcs.resize(3);
+				do {
+					std::string names;
+					for (size_t i = 0; i < svcs.size(); i++) names += (i ? "," : "") + svcs[i];
+					Run("Q " + Enc(req) + " Host,Service c p:Service=" + names + " t=Host f=" + f);
+				} while (std::next_permutation(svcs.begin(), svcs.end()));
+			}
+		}
 	}
 	/* one request visiting several objects, in every order: plural name lists in all permutations */
 	for (int host = 0; host < 2; host++) {
